@@ -1277,6 +1277,25 @@ func (h *Hist) step() {
 				h.W("write", f, nd)
 			}
 		}
+	case "switch-reset-probe":
+		// a reset whose position falls on (or just after) a record written by `switch` between branches at different commits:
+		// the commit `reflog` shows at HEAD@{n} is the one reset must install, whatever the record's other columns say
+		cur, okc := h.obs.headBranch()
+		nb := r.pick([]string{"side", "probe", "dev2", "zz"})
+		if okc && cur != nb {
+			h.X(tz, "switch", "-c", nb)
+			h.W("write", h.randPath(), h.content())
+			h.X(tz, "add", ".")
+			h.X(tz, "commit", "-m", "on "+nb)
+			h.X(tz, "switch", cur)
+			if h.cfg.PreReset {
+				h.inProbe = true
+				sampleReflog(h)
+				h.inProbe = false
+			}
+			h.X(tz, "reset", r.pick([]string{"--soft", "--mixed", "--hard"}), fmt.Sprintf("HEAD@{%d}", 1+r.intn(2)))
+			h.X(tz, "status")
+		}
 	case "block-size-probe":
 		// a tracked file whose size sits on (or next to) the block sizes readers use — 4096, 8192, 65536 — staged, then edited at
 		// its very end (bytes appended, the last byte changed, one byte cut): `status` compares bytes, not blocks
